@@ -236,13 +236,12 @@ package raft
 // here the meta file is modelled by the abstract label it holds.
 //@ pure LabelAt(p uint64, i uint64, t uint64, ci uint64, ct uint64, sz int) bool = lIdx[p] == i && lTerm[p] == t && lCfgIdx[p] == ci && lCfgTerm[p] == ct && lSize[p] == sz
 //@ pure LabelSame(p uint64) bool = lIdx[p] == old(lIdx[p]) && lTerm[p] == old(lTerm[p]) && lCfgIdx[p] == old(lCfgIdx[p]) && lCfgTerm[p] == old(lCfgTerm[p]) && lSize[p] == old(lSize[p])
-//@ func (*snapshotMeta).encode
-//@   trusted
+// (abstract label-level views for the two callers, T-abs; the byte-level contracts are proved in verif_contracts_codecs2.go)
+//@ view (*snapshotMeta).encode at (*snapshotSink).done
 //@   modifies lIdx, lTerm, lCfgIdx, lCfgTerm, lSize
 //@   ensures result0 == nil && istype(w, *os.File) ==> LabelAt(as(w, *os.File).gpath, m.index, m.term, m.config.Index, m.config.Term, m.size)
 //@   ensures istype(w, *os.File) ==> forall(p, p != as(w, *os.File).gpath ==> LabelSame(p))
-//@ func (*snapshotMeta).decode
-//@   trusted
+//@ view (*snapshotMeta).decode at (*snapshots).meta
 //@   modifies all(m)
 //@   ensures result0 == nil && istype(r, *os.File) ==> LabelAt(as(r, *os.File).gpath, m.index, m.term, m.config.Index, m.config.Term, m.size)
 
